@@ -11,16 +11,17 @@ Require Import EV.Proofs.LoaderP.
    an armed guard.  A successful load leaves exactly one more live resource -- the backend owned by the returned
    case -- and dropping the case releases exactly that resource: *)
 Theorem C09_success_then_release_once :
-  forall (l : loader) (n : N) (live : list resource),
+  forall (l : loader) (n : N) (h : how) (live : list resource),
     l <> LFull ->
-    exists b, load_ledger l n SNone live = (b :: live, true) /\ drop_case l n (b :: live) = live.
+    exists b, load_ledger l n SNone h live = (b :: live, true) /\ drop_case l n (b :: live) = live.
 Proof. exact ledger_success. Qed.
 
 (* A load that stops anywhere (metadata, open, acquisition, reading the file, deserialization:
-   wrong type, corrupt or truncated file, by error or by panic) leaves the ledger as it was: *)
+   wrong type, corrupt or truncated file), by a returned error or by a panic, leaves the ledger as
+   it was: *)
 Theorem C09_failure_leaks_nothing :
-  forall (l : loader) (n : N) (s : stop) (live : list resource),
-    can_stop l s = true -> load_ledger l n s live = (live, false).
+  forall (l : loader) (n : N) (s : stop) (h : how) (live : list resource),
+    can_stop l s = true -> load_ledger l n s h live = (live, false).
 Proof. exact ledger_failure. Qed.
 
 (* [can_stop]: every fallible step of each loader (computed from the step lists) *)
@@ -35,14 +36,26 @@ Proof. exact can_stop_table. Qed.
 (* The model discriminates: the step lists of the pinned tree (no guard, defect D6) leak the backend
    when deserialization fails, and so does disarming the guard too early (seeded change C09-a). *)
 Theorem C09_refuted_without_guard :
-  forall n live,
-    ledger_of (loader_steps_pinned LMem n) SDeser live = (RHeap (capacity LMem n) :: live, false) /\
-    ledger_of (loader_steps_pinned LMmap n) SDeser live = (RMapping (capacity LMmap n) :: live, false) /\
-    ledger_of (loader_steps_pinned LMap n) SDeser live = (RMapping n :: live, false).
+  forall n h live,
+    ledger_of (loader_steps_pinned LMem n) SDeser h live = (RHeap (capacity LMem n) :: live, false) /\
+    ledger_of (loader_steps_pinned LMmap n) SDeser h live = (RMapping (capacity LMmap n) :: live, false) /\
+    ledger_of (loader_steps_pinned LMap n) SDeser h live = (RMapping n :: live, false).
 Proof. exact ledger_pinned_leaks. Qed.
 
+(* ... and so does a release attached to the returned error instead of a drop guard (seeded change
+   C09-d): clean on every error and on success, it leaks the backend exactly when deserialization
+   panics -- which a file truncated inside a zero-copy payload provokes. *)
+Theorem C09_refuted_with_error_handler_instead_of_guard :
+  forall (l : loader) (n : N) (live : list resource),
+    l <> LFull ->
+    (forall s, can_stop l s = true -> ledger_of (loader_steps_map_err l n) s ByErr live = (live, false)) /\
+    (forall h, ledger_of (loader_steps_map_err l n) SNone h live = ledger_of (loader_steps l n) SNone h live) /\
+    (forall s, can_stop l s = true -> s <> SDeser -> ledger_of (loader_steps_map_err l n) s ByPanic live = (live, false)) /\
+    exists b, ledger_of (loader_steps_map_err l n) SDeser ByPanic live = (b :: live, false).
+Proof. exact ledger_map_err. Qed.
+
 Theorem C09_load_full_holds_nothing :
-  forall (n : N) (s : stop) (live : list resource), fst (load_ledger LFull n s live) = live.
+  forall (n : N) (s : stop) (h : how) (live : list resource), fst (load_ledger LFull n s h live) = live.
 Proof. exact ledger_full. Qed.
 
 (* The lifetime part of the property ("borrowed data cannot outlive its owner for every safe
@@ -54,4 +67,5 @@ Print Assumptions C09_success_then_release_once.
 Print Assumptions C09_failure_leaks_nothing.
 Print Assumptions C09_stop_points.
 Print Assumptions C09_refuted_without_guard.
+Print Assumptions C09_refuted_with_error_handler_instead_of_guard.
 Print Assumptions C09_load_full_holds_nothing.
